@@ -239,7 +239,37 @@ class StreamDestroy(TopoBase):
                        note='a refused edit half-way would leave the remaining links inconsistent')]
 
 
-ALL = [StreamConnect, StreamDisconnect, StreamDestroy]     # StreamDisconnectSubclassMayRefuse: hypothetical (no _remove_upstream in the repository refuses a connected input), not run
+
+
+class StreamDestroyEmptySelection(StreamDestroy):
+    """self.destroy(streams=[]): an explicit, empty selection removes nothing (None means "all", an empty list does not)"""
+    name = 'Stream.destroy[streams=[]]'
+
+    def build(self, I):
+        selfv, args, kw = StreamDestroy.build(self, I)
+        g = I.st.ghost
+        # u0 is one of the upstreams: name the split, so that "every upstream is linked" unfolds to "u0 is linked"
+        I.st.assume(g['U'].t == z3.Concat(z3.Const('Ua', sym.SeqObjS), z3.Unit(g['u0'].t), z3.Const('Ub', sym.SeqObjS)))
+        sel = I.st.new_list(z3.Empty(sym.SeqObjS), K_STREAM)
+        self.finish(I, {'self': selfv, 'streams': sel})
+        return selfv, [], {'streams': sel}
+
+    def loop_specs(self):
+        # with an empty selection the loop does not run; the invariant only has to say that nothing happened so far
+        return {('Stream.destroy', 0): LoopSpec(
+            modifies=['self.upstreams', 'ghost:DOWN'],
+            invariant=[('nothing_removed_while_nothing_was_selected',
+                        'implies(len(_P) == 0, list(self.upstreams) == U and down_has(u0, self) and down_has(o1, d1) == down_was(o1, d1))')],
+            props=['C15'], name='detach')}
+
+    def clauses(self):
+        return [Clause('C15.destroy_of_an_empty_selection_removes_no_link', ['C15'], when='return',
+                       text='list(self.upstreams) == U and down_has(u0, self) and down_has(o1, d1) == down_was(o1, d1)',
+                       note='elements keep flowing along every edge that was not selected'),
+                Clause('C15.destroy_of_a_consistent_node_never_fails', ['C15'], when='raise', text='False')]
+
+
+ALL = [StreamConnect, StreamDisconnect, StreamDestroy, StreamDestroyEmptySelection]     # StreamDisconnectSubclassMayRefuse: hypothetical (no _remove_upstream in the repository refuses a connected input), not run
 
 
 # --------------------------------------------------------------------------- combine_latest / zip: _add/_remove_upstream
